@@ -69,7 +69,7 @@ func dvalIsF10(cs *dvalCase, o dvalOutcome) bool {
 	return false
 }
 
-// Known findings of this work package (findings/C35.txt), recognised narrowly by the
+// Known findings of this work package (KNOWN_FINDINGS.txt), recognised narrowly by the
 // injection class that produced the input AND the exact outcome.
 func dvalKnownAccepted(cs *dvalCase) string {
 	switch cs.What {
